@@ -88,18 +88,25 @@ def rule_b(repo, chk):
         brk = [x for x in ast.walk(lp) if isinstance(x, ast.Break)]
         ok = len(brk) == 1 and gate(f, brk[0], none_accept('spec')) is None
         chk.ob('C10.b', ok, lp, 'the first finder that returns a spec wins (break)')
-        cont = [x for x in ast.walk(lp) if isinstance(x, ast.Continue)]
-        conds = []
-        for x in cont:
-            for a in repo.ancestors(x):
-                if isinstance(a, ast.If):
-                    conds.append(norm(a.test))
-                    break
-                if isinstance(a, ast.ExceptHandler):
-                    conds.append('except ' + norm(a.type))
-                    break
-        ok = sorted(conds) == sorted(["spec.origin == 'frozen'", 'except AttributeError'])
-        chk.ob('C10.b', ok, lp, 'only frozen specs and finders without find_spec are skipped', str(conds))
+        # a finder is passed over (next iteration without break/return) only for: no find_spec (AttributeError), no spec, or a frozen spec
+        cg = cfg_of(f)
+        heads = [n for n in cg.nodes if n.kind == 'for' and n.ast is lp]
+        body0 = [m for h in heads for m, k in h.succ if k == 'T']
+
+        def skip_reason(n, k, m):
+            if n.kind == 'test' and k in ('T', 'F'):
+                for e, pol in ((n.ast, k == 'T'),):
+                    t = norm(e)
+                    if (t == 'spec is not None' and not pol) or (t == 'spec is None' and pol):
+                        return True
+                    if t in ("spec.origin == 'frozen'", "spec.origin != 'frozen'") and (pol == (t == "spec.origin == 'frozen'")):
+                        return True
+            return False
+        handler_nodes = [n for n in cg.nodes if n.kind == 'handler' and 'AttributeError' in norm(n.ast.type or ast.Constant(value=''))]
+        p_ = cg.reach(body0, lambda n: n in heads, block_node=lambda n: n in handler_nodes or (isinstance(n.ast, (ast.Break, ast.Return)) and n.kind == 'stmt'),
+                      block_edge=skip_reason, kinds={'n', 'T', 'F', 'exc'}) if body0 else None
+        chk.ob('C10.b', bool(body0) and p_ is None, lp, 'only frozen specs and finders without find_spec (or without a spec) are skipped',
+               cg.describe(p_) if p_ else '')
         ns = [c for c in ast.walk(lp) if isinstance(c, ast.Call) and call_name(c) == 'ImplicitNSInfo']
         ok = len(ns) == 1 and norm(ns[0].args[1]) == 'spec.submodule_search_locations._path'
         chk.ob('C10.b', ok, lp, 'a namespace package is reported with the plain list of its portions (not importlib\'s live, self-recomputing _NamespacePath)',
